@@ -6,6 +6,7 @@ CONSTANTS
   MaxDepth = 1
   MaxLen = 6
   Forms = {"plain", "open", "neg", "over"}
+  PairFamily = "cuts"
 INVARIANT TypeOK
 INVARIANT Rectangular
 INVARIANT UniqueNames
@@ -14,3 +15,4 @@ INVARIANT RcInvolution
 INVARIANT SliceCommutesWithTakeSeqs
 INVARIANT RcOfSliceIsSliceOfRc
 INVARIANT NegateKeepsTheOthers
+INVARIANT ConcatOfCutIsIdentity
